@@ -111,6 +111,13 @@ def check_trace(surfs, recs, scale_tol=1e-7):
                 bad.append({'surface': si + 1, 'kind': 'off-surface', 'shape': s['shape'][0], 'detail': f'hit not on the conic (quadric residual {q:.3e})'})
         elif abs(p[2] - zs) > tol_pos:
             bad.append({'surface': si + 1, 'kind': 'off-surface', 'shape': s['shape'][0], 'detail': f'hit off the surface by {p[2]-zs:.3e}'})
+        # 1b. a conic is met on the half line leaving the previous point: the closed-form intersection discards roots
+        #     behind the ray (a ray whose quadric lies wholly behind it has NO intersection and must be non-finite)
+        if s['shape'][0] == 'std' and all(math.isfinite(v) for v in prev[:6]):
+            along = sum((a - b) * c for a, b, c in zip(rec[:3], prev[:3], prev[3:6]))
+            if along < -1e-9 * size:
+                bad.append({'surface': si + 1, 'kind': 'behind-ray', 'shape': 'std',
+                            'detail': f'recorded hit lies {-along:.3e} BEHIND the ray origin (no intersection on the half line, yet finite)'})
         # 2. unit outgoing direction
         nrm = math.sqrt(L * L + M * M + N * N)
         if abs(nrm - 1) > 1e-9:
